@@ -353,6 +353,67 @@ func volumeRanges(c *core.Ctx, w *core.W, e *eco.Eco, syn cmpSyntax, key string,
 				}
 			}
 		}
+		if ti == 0 {
+			// one range OBJECT asked about many distinct versions (per-object result tables): sentinel ranges - grammar
+			// ranges and OR-joined comparator pairs - answer 64 first questions, then 6000 (thorough 60000) further
+			// distinct versions, then the first questions again: same answers as before and as a fresh parse of the range
+			nq := c.Scale(6000, 60000)
+			if nq > per {
+				nq = per
+			}
+			for k := 0; k < 16; k++ {
+				var txt string
+				switch k % 4 {
+				case 0, 1:
+					txt = gen.RangeOne(e.Name, r)
+				case 2:
+					if len(syn.or) > 0 {
+						a, b := r.IntN(per), r.IntN(per)
+						txt = spell[r.IntN(len(spell))] + t.at(a) + syn.or[r.IntN(len(syn.or))] + spell[r.IntN(len(spell))] + t.at(b)
+					} else {
+						txt = gen.RangeOne(e.Name, r)
+					}
+				default:
+					txt, _ = text(r.IntN(per))
+				}
+				g, err, pn := e.SafeNewRange(txt)
+				if pn != nil || err != nil || g == nil {
+					continue
+				}
+				firstQ := make([]int, 0, 64)
+				firstA := make([]bool, 0, 64)
+				for q := 0; q < 64; q++ {
+					i := r.IntN(per)
+					if vers[i] == nil {
+						continue
+					}
+					a, _ := eco.SafeContains(g, vers[i])
+					firstQ, firstA = append(firstQ, i), append(firstA, a)
+				}
+				for i := 0; i < nq; i++ {
+					if vers[i] != nil {
+						eco.SafeContains(g, vers[i])
+					}
+				}
+				w.Count("volume_questions_to_one_range_object", int64(nq))
+				f, _, _ := e.SafeNewRange(txt)
+				for q, i := range firstQ {
+					a, pn := eco.SafeContains(g, vers[i])
+					w.Count("evaluations", 1)
+					bad := pn != nil || a != firstA[q]
+					if !bad && f != nil {
+						if fa, _ := eco.SafeContains(f, vers[i]); fa != a {
+							bad = true
+						}
+					}
+					if bad && perRule["object"] < 3 {
+						perRule["object"]++
+						out = append(out, core.Violation{Eco: e.Name, Op: "volume-ranges", Args: []string{key, itoa(V), txt, t.at(i)}, Rule: "after-volume:range-object-answers-differently-after-many-questions", Got: b2s(a), Want: b2s(firstA[q]),
+							Detail: "the same range object was asked about " + itoa(nq) + " other versions in between"})
+					}
+				}
+			}
+		}
 		w.Count("volume_distinct_ranges_parsed_and_kept", int64(per))
 		w.Count("events:NewVersionRange", int64(per))
 		sample := c.Scale(30000, 200000)
